@@ -110,7 +110,10 @@ fn main() {
         take_log();
         // watchdog: a blocked caller is a violation, not a hang of the check
         let (tx, rx) = std::sync::mpsc::channel();
-        let h = std::thread::Builder::new().name("main".to_string()).spawn(move || { let r = f(); let _ = tx.send(r); }).unwrap();
+        // programs whose id ends in `_u` are called from a thread without a name, the others from one named "main"
+        let tb = std::thread::Builder::new();
+        let tb = if name.ends_with("_u") { tb } else { tb.name("main".to_string()) };
+        let h = tb.spawn(move || { let r = f(); let _ = tx.send(r); }).unwrap();
         match rx.recv_timeout(std::time::Duration::from_secs(20)) {
             Ok(res) => { let _ = h.join(); println!("{}\t{}\t{}", name, res, take_log()); }
             Err(_) => { println!("{}\tBLOCKED\t{}", name, take_log()); }
@@ -392,8 +395,9 @@ def lean_expected(progs, structures):
     lines = []
     for p in progs:
         st = structures[p.pid]
-        lines.append("SPEC\t%s\t%s\t%s\t%s" % (p.pid, p.kind, st, p.world()))
-        lines.append("RUN\t%s\t%s\t%s\t%s" % (p.pid, p.kind, st, p.world()))
+        u = "U" if p.pid.endswith("_u") else ""     # caller thread without a name
+        lines.append("SPEC%s\t%s\t%s\t%s\t%s" % (u, p.pid, p.kind, st, p.world()))
+        lines.append("RUN%s\t%s\t%s\t%s\t%s" % (u, p.pid, p.kind, st, p.world()))
     outs = k1.run_driver(lines)
     res = {}
     for i, p in enumerate(progs):
@@ -511,6 +515,10 @@ def run_programs(ctx, progs, crate="k2sync", with_async=False, prelude=PRELUDE_S
     """Compile + run progs, compare with Lean. Returns list of (prog, problems, rust_line, spec_line)."""
     if not progs:
         return []
+    # every third program of a thread-spawning kind is called from a thread without a name
+    for i, p in enumerate(progs):
+        if main is MAIN_SYNC and p.kind in ("a0t0s1", "a0t1s1") and i % 3 == 2 and not p.pid.endswith("_u"):
+            p.pid += "_u"
     # structures through the real parser (also a K1 comparison of these inputs)
     cases = [(p.pid, p.kind, p.macro_input(), "k2") for p in progs]
     reals = k1.run_real(cases)
@@ -575,6 +583,7 @@ def report(ctx, results, signature_fn=None):
             ctx.out.violation({
                 "macro": p.name, "macro_kind": p.kind, "source": p.macro_input(), "program": "%s! { %s }" % (p.name, p.macro_input()),
                 "world": p.world(), "observed": rust_line, "reference_semantics": spec_line, "problems": impl[:4],
+                "caller_thread": "a thread without a name" if p.pid.endswith("_u") else "a thread named `main`",
                 "how_to_replay": "./check %s --replay <this file>  (compiles the program against /repo and re-compares)" % ctx.pid,
             }, found_input=True, signature=sig)
     return n_impl
@@ -634,6 +643,9 @@ def nested_names_programs():
              "-> |r: Result<(i64, i64), i64>| r.unwrap().0 }")
     exp3 = {1: "main_join_0", 2: "main_join_1_join_0", 3: "main_join_1_join_1_join_0", 4: "main_join_1_join_1_join_1"}
     out.append(("n3", body3, exp3))
+    # the same from a caller without a name: no prefix, the thread's own events show `-`
+    for pid, body, exp in list(out):
+        out.append((pid + "_u", body, {i: ("-" if n == "main" else n[len("main_"):]) for i, n in exp.items()}))
     return out
 
 
@@ -1099,11 +1111,36 @@ REGRESSION_CHAINS = [
 ]
 
 
+# operators with two operands, one or both written as blocks: hoisted in operand order, each evaluated once, before the step
+_FB1, _FB2 = "{ t(901); 10i64 }", "{ t(902); |a: i64, v: i64| { t(903); a + v } }"
+_TB2 = "{ t(902); |a: i64, v: i64| { t(903); a.checked_add(v) } }"
+FOLD_BLOCK_CHAINS = [
+    ("vec![1i64, 2, 3].into_iter() ^@ %s, %s" % (_FB1, _FB2),
+     "{ let __b1 = %s; let __b2 = %s; vec![1i64, 2, 3].into_iter().fold(__b1, __b2) }" % (_FB1, _FB2), "i64"),
+    ("vec![1i64, 2, 3].into_iter() ?^@ %s, %s" % (_FB1, _TB2),
+     "{ let __b1 = %s; let __b2 = %s; vec![1i64, 2, 3].into_iter().try_fold(__b1, __b2) }" % (_FB1, _TB2), "Option<i64>"),
+    ("vec![1i64, 2, 3].into_iter() |> |v| v + 1 ~^@ %s, %s ~-> |v: i64| { t(904); v * 2 }" % (_FB1, _FB2),
+     "{ let __p = vec![1i64, 2, 3].into_iter().map(|v| v + 1); let __b1 = %s; let __b2 = %s; let __f = __p.fold(__b1, __b2); "
+     "(|v: i64| { t(904); v * 2 })(__f) }" % (_FB1, _FB2), "i64"),
+    ("vec![1i64, 2, 3].into_iter() ^@ 10i64, %s" % _FB2,
+     "{ let __b2 = %s; vec![1i64, 2, 3].into_iter().fold(10i64, __b2) }" % _FB2, "i64"),
+    ("vec![1i64, 2, 3].into_iter() ^@ %s, |a: i64, v: i64| { t(903); a + v }" % _FB1,
+     "{ let __b1 = %s; vec![1i64, 2, 3].into_iter().fold(__b1, |a: i64, v: i64| { t(903); a + v }) }" % _FB1, "i64"),
+    ("Some(vec![1i64, 2]) |> >>> ..into_iter() ^@ %s, %s <<<" % (_FB1, _FB2),
+     "{ let __b1 = %s; let __b2 = %s; Some(vec![1i64, 2]).map(move |__v| __v.into_iter().fold(__b1, __b2)) }" % (_FB1, _FB2), "Option<i64>"),
+    ("{ t(900); vec![1i64, 2, 3].into_iter() } ^@ %s, %s" % (_FB1, _FB2),
+     "{ let __b0 = { t(900); vec![1i64, 2, 3].into_iter() }; let __b1 = %s; let __b2 = %s; __b0.fold(__b1, __b2) }" % (_FB1, _FB2), "i64"),
+]
+
+
 def regression_chain_programs():
     out = []
     for i, (m, pl, ty) in enumerate(REGRESSION_CHAINS):
         for name in ("join", "join_spawn", "spawn"):
             out.append(FixedChainProg("r%d_%s" % (i, name), name, m, pl, ty))
+    for i, (m, pl, ty) in enumerate(FOLD_BLOCK_CHAINS):
+        for name in ("join", "join_spawn"):
+            out.append(FixedChainProg("fb%d_%s" % (i, name), name, m, pl, ty))
     return out
 
 
